@@ -438,7 +438,10 @@ def handleC18 (fields : List String) : Verdict :=
       let colourable := (choices verts).any (fun ch => inp.all (fun e => e.1 == e.2 ||
         (ch.find? (fun p => p.1 == e.1)).map (·.2) != (ch.find? (fun p => p.1 == e.2)).map (·.2)))
       let coveringClique := (choices verts).any (fun ch => ch.all (fun a => ch.all (fun b => a == b || adjOut (showC a) (showC b))))
-      let o := if verts.length > 5 || k > 3 then none
+      let isCopy := fun (s : String) => verts.any (fun v => (List.range k).any (fun c => s == showC (v, c)))
+      let o := if !(outp.all (fun p => isCopy p.1 && isCopy p.2)) then
+          some s!"an end-point of an output edge is not a colour copy <vertex>_c<i>, i < {k}, of an input vertex"
+        else if verts.length > 5 || k > 3 then none
         else if colourable != coveringClique then
           some s!"the input graph is {if colourable then "" else "not "}{k}-colourable, but the output graph {if coveringClique then "has" else "has no"} clique covering every input vertex exactly once"
         else none
